@@ -21,7 +21,9 @@ pub mod c07;
 pub mod c08;
 pub mod c09;
 pub mod c10;
+pub mod c11;
 pub mod c12;
+pub mod c13;
 pub mod c14;
 pub mod c15;
 pub mod c16;
@@ -30,7 +32,7 @@ pub mod c20;
 
 use runner::{Run, Sub};
 
-pub const PROPS: &[&str] = &["C01", "C02", "C03", "C04", "C05", "C06", "C07", "C08", "C09", "C10", "C12", "C14", "C15", "C16", "C17", "C20"];
+pub const PROPS: &[&str] = &["C01", "C02", "C03", "C04", "C05", "C06", "C07", "C08", "C09", "C10", "C11", "C12", "C13", "C14", "C15", "C16", "C17", "C20"];
 
 pub fn subs_of(prop: &str) -> Option<Vec<Sub>> {
     match prop {
@@ -44,7 +46,9 @@ pub fn subs_of(prop: &str) -> Option<Vec<Sub>> {
         "C08" => Some(c08::subs()),
         "C09" => Some(c09::subs()),
         "C10" => Some(c10::subs()),
+        "C11" => Some(c11::subs()),
         "C12" => Some(c12::subs()),
+        "C13" => Some(c13::subs()),
         "C14" => Some(c14::subs()),
         "C15" => Some(c15::subs()),
         "C16" => Some(c16::subs()),
@@ -66,7 +70,9 @@ pub fn run_prop(run: &Run) -> bool {
         "C08" => c08::run(run),
         "C09" => c09::run(run),
         "C10" => c10::run(run),
+        "C11" => c11::run(run),
         "C12" => c12::run(run),
+        "C13" => c13::run(run),
         "C14" => c14::run(run),
         "C15" => c15::run(run),
         "C16" => c16::run(run),
@@ -82,6 +88,7 @@ pub fn child_main(args: &[String]) -> i32 {
     match args.first().map(|s| s.as_str()) {
         Some("c05") => c05::child(&args[1..]),
         Some("c10") => c10::child(&args[1..]),
+        Some("c13") => c13::child(&args[1..]),
         Some("c20") => c20::child(&args[1..]),
         _ => 2,
     }
